@@ -284,6 +284,9 @@ def judge_path(s, J, op, res, degenerate):
             bound = tol * (1 + REL) + allow
             if cert["value"] > bound:
                 only_int = cert["coef_part"] <= bound < cert["intercept_part"]
+                bad_units = np.where(np.asarray(cert["per_unit"]) > bound)[0]
+                only_zero_cols = bool(len(bad_units)) and cert["intercept_part"] <= bound and all(
+                    not pr.absX[:, pr.pen.unit_indices(int(k), pr.p)].any() for k in bad_units)
                 out.append(dict(
                     prop=["C05", "C01"], oracle="certificate",
                     sig=sig0 + ("path_certificate", crit, "intercept_only" if only_int else "coef"),
@@ -292,7 +295,8 @@ def judge_path(s, J, op, res, degenerate):
                                 intercept_part=cert["intercept_part"]),
                     feat=dict(solver=s.solver_name, datafit=s.dname, penalty=s.pname, path=True,
                               fi=res["fi"], t=t, n_alphas=len(res["alphas"]), criterion=crit,
-                              only_intercept=bool(only_int), ratio=cert["value"] / tol,
+                              only_intercept=bool(only_int), only_zero_columns=bool(only_zero_cols),
+                              ratio=cert["value"] / tol,
                               intercept_ratio=cert["intercept_part"] / tol,
                               storage=res["storage"], tol=tol, w0=op.get("w0") is not None,
                               zero_weights=bool(np.any(np.asarray(s.pargs.get("weights", [1.0])) == 0)),
